@@ -23,6 +23,21 @@ CHECKS = {
         design="5/C02"),
 }
 
+CHECKS.update({
+    "C14": dict(
+        engine="tgv-syntax",
+        technique=FORM_E + "; oracle: token stream equals that of an independent reference lexer written from the language reference",
+        text="About a thousand spec-level token instances (each token class enumerated over its regular language to a bound, with boundary cases) are combined into every single, every ordered pair and reduced triples, joined by every separator kind with and without a trailing separator; the real lexer's (kind, range) stream must equal the by-construction stream, which is itself cross-checked against the reference lexer on every case.",
+        note="reference tables follow spec/lexical.md; a reference/constructor disagreement aborts as machinery error, never as a verdict",
+        design="5/C14"),
+    "C15": dict(
+        engine="tgv-ide",
+        technique=FORM_E + "; the directive language is a small state machine enumerated whole against a stack-evaluator reference",
+        text="Every directive/marker word up to the tier's length (9 symbols) is rendered one symbol per line, evaluated by a 40-line reference evaluator, and compared with the identifiers the real parser receives, the document symbols and diagnostics of the real analysis; unterminated conditionals and nameless directives must raise an error; every word also passes the C01/C02 oracles.",
+        note="ill-nested words and nameless directives inside disabled regions are a stated don't-care zone",
+        design="5/C15"),
+})
+
 NOT_YET = {}
 
 def main():
